@@ -375,7 +375,8 @@ def project(events, run_index=0):
         elif t == "Filter":
             ev("Filter", site=e["fsite"], proj=bool(e["proj"]), nin=e["n_in"], nout=e["n_out"],
                noob=e["n_oob"], ndup=e["n_dup"], nalready=e["n_already"],
-               ninfeas=e["n_infeas"], nalien=e["n_alien"], hascons=bool(e["has_cons"]))
+               ninfeas=e["n_infeas"], nalien=e["n_alien"], hascons=bool(e["has_cons"]),
+               whole=bool(e.get("whole", False)))
         elif t == "InitDone":
             nd = False
             if len(first_two) == 2 and first_two[1][0] == "noisetest":
